@@ -21,8 +21,14 @@ mkdir -p $V/seeded/$D
 cp $S/out/patch.diff $S/out/demo.py $V/seeded/$D/ 2>/dev/null
 cp $S/out/meta.json $V/seeded/$D/meta_agent.json 2>/dev/null
 cd $V
+# SEEDVIA=worktree: the checks run against the worktree that holds the change (FRAME_REPO) instead of a patched /repo - for use
+# while other runs are reading /repo
+if [ "$SEEDVIA" = worktree ]; then
+  export FRAME_REPO=$S/wt
+else
 [ -z "$(git -C /repo status --porcelain --untracked-files=no)" ] || { echo "/repo dirty"; exit 2; }
 git -C /repo apply $S/out/patch.diff || { echo "$P: patch does not apply to /repo"; exit 2; }
+fi
 s=$(date +%s)
 VERIF_EVIDENCE_DIR=/tmp/vfw-evidence-scratch VERIF_CASE_TIMEOUT=30 ./check $P --tier $TIER > $S/out/check_$TIER.txt 2>&1; CE=$?
 e=$(date +%s)
@@ -32,7 +38,7 @@ if grep -q "VIOLATION property=$P replay=$V/replay/" $S/out/check_$TIER.txt && !
   VERIF_NO_REGRESSION=1 VERIF_EVIDENCE_DIR=/tmp/vfw-evidence-scratch VERIF_CASE_TIMEOUT=30 ./check $P --tier $TIER > $S/out/check_${TIER}_noreplay.txt 2>&1
   GEN=" | generated search alone: exit=$? $(grep -A1 VIOLATION $S/out/check_${TIER}_noreplay.txt | tail -1 | cut -c1-160)"
 fi
-git -C /repo checkout -- .
+[ "$SEEDVIA" = worktree ] || git -C /repo checkout -- .
 rm -rf $V/found/$P
 echo "$P check($TIER) exit=$CE $((e-s))s: $(grep -E -A1 'VIOLATION|HARNESS' $S/out/check_$TIER.txt | head -2 | tr '\n' ' ' | cut -c1-300)$GEN"
 echo "{\"tests\": \"$T\", \"demo_with_change_exit\": $DW, \"demo_without_change_exit\": $DO, \"check_tier\": \"$TIER\", \"check_exit\": $CE, \"check_seconds\": $((e-s))}" > $V/seeded/$D/confirm_$TIER.json
